@@ -940,6 +940,10 @@ func (r *runner) run(dir string) scenResult {
 		case "fsizeunlimit":
 			syscall.Setrlimit(syscall.RLIMIT_FSIZE, &r.oldFsize)
 			atomic.StoreInt32(&ioFaultWindow, 0)
+		case "extupdate": // another process (a CLI command beside the agent) changes a password through the library, not the agent
+			if xd, err := lib.NewDirFromConfig(r.cfg); err == nil {
+				xd.UpdateUser(s.U, r.sc.Passwords[s.P])
+			}
 		case "hangup": // s.N web clients send a login and close their connection 300 ms later, without waiting for the answer
 			hu, _ := url.Parse(r.fe.httpURL)
 			for i := 0; i < s.N; i++ {
